@@ -117,3 +117,29 @@ class Model(object):
             self.p.wait(timeout=10)
         except Exception:
             self.p.kill()
+
+
+def call_many_parallel(exe, entry, args, nproc=8, oracle=None):
+    """Shard oracle-free calls over several driver processes (order preserved)."""
+    args = list(args)
+    if len(args) < 64 or nproc <= 1:
+        m = Model(exe, oracle)
+        try:
+            return m.call_many(entry, args)
+        finally:
+            m.close()
+    from concurrent.futures import ThreadPoolExecutor
+    shards = [args[i::nproc] for i in range(nproc)]
+
+    def work(sh):
+        m = Model(exe, oracle)
+        try:
+            return m.call_many(entry, sh)
+        finally:
+            m.close()
+    with ThreadPoolExecutor(nproc) as ex:
+        parts = list(ex.map(work, shards))
+    out = [None] * len(args)
+    for i, part in enumerate(parts):
+        out[i::nproc] = part
+    return out
